@@ -679,12 +679,12 @@ class __Class(_pre.Pregex):
 
         :param str classes: One or more string character class patterns.
         '''
-        range_pattern = \
-            r"(?:\\(?:\[|\]|\^|\$|\-|\/|[a-z]|\\)|[^\[\]\^\$\-\/\\])" + \
-            r"-(?:\\(?:\[|\]|\^|\$|\-|\/|[a-z]|\\)|[^\[\]\^\$\-\/\\])"
-        ranges = set(_re.findall(range_pattern, classes))
-        classes = _re.sub(pattern=range_pattern, repl="", string=classes)
-        return (ranges, set(_re.findall(r"\\?.", classes, flags=_re.DOTALL)))
+        char_pattern = r"(?:\\.|[^\\])"
+        ranges, chars = set(), set()
+        for m in _re.finditer(f"({char_pattern}-{char_pattern})|{char_pattern}",
+            classes, flags=_re.DOTALL):
+            (chars if m.group(1) is None else ranges).add(m.group(0))
+        return (ranges, chars)
 
     
     @staticmethod
